@@ -49,6 +49,8 @@ def run(args):
         ctx.evaluations = len(cases)
         feat_cases = [c for c in cases if c[0].startswith("c01 feat ")]
         cases = [c for c in cases if not c[0].startswith("c01 feat ")]
+        disp_cases = [c for c in cases if c[0].startswith("c01 dispatch ")]
+        cases = [c for c in cases if not c[0].startswith("c01 dispatch ")]
         pys = [python_says(c[0].split(" ")[-1]) for c in cases]
         n_over = sum(1 for x in pys if x == "overflow")
         keep = [i for i, x in enumerate(pys) if x != "overflow"]
@@ -96,11 +98,28 @@ def run(args):
                                  "why": f"feature program `{name}`: the compiled program prints / stops differently from the documented meaning of its source"})
             else:
                 hist["feature_programs_agree"] += 1
+        # third stream: method dispatch along `extends` chains — model tie + the documented rule (most derived wins)
+        ctx.tie("model dispatch (inheritedMethods: retain + push per class, ancestors first) = which body a method call runs in compiled class chains", disp_cases, ctx.run_driver([c[0] for c in disp_cases]))
+        hist["class_chains_agree"] = 0
+        for req, real in disp_cases:
+            ctx.nontrivial.add(req)
+            levels = [(l.split(":")[0], [m for m in l.split(":")[1].split(",") if m]) for l in req.split(" ")[2].split(";")]
+            lines = []
+            for i in range(len(levels)):
+                for m in ("a", "b", "c", "d"):
+                    owners = [c for c, ms in levels[:i + 1] if m in ms]
+                    if owners:
+                        lines.append(f"{i}.{m}={owners[-1]}")
+            exp = "done " + (",".join(lines) if lines else "-")
+            if real != exp:
+                failures.append({"request": req, "real": real, "expected": exp, "why": "a method call on an instance of a subclass must run the most derived body (overriding), an inherited method the ancestor's"})
+            else:
+                hist["class_chains_agree"] += 1
         for f in failures[:5]:
             ctx.violation("oracle", f)
         ctx.samples = [{"request": r[:240], "real": o[:120]} for r, o in cases[:2] + cases[-2:]]
         ctx.coverage_extra = {"histogram": hist, "harness_meta": metas, "oracle_failures": len(failures)}
     ctx.conclude_broken_obligations(failures)
     return ctx.finish(
-        rule="seeded random programs of the core fragment: a function f(a, b, flag, xs) with up to 3 levels of nested if / 0–3 elif / else, bounded while loops with break/continue, for over range and over lists, compound assignments with all five integer operators, prints of integer and boolean expressions built by a precedence-layered generator (so the source groups as written, without parentheses), calls of two printing helpers (evaluation order observable), list append / len / indexing with positive and negative indices; every program called with three argument tuples, compiled with rustc and run; 7 grouping probes; 3 hand-written regression programs first; plus 12 feature templates beyond the core fragment with seeded constants (Option/Result/`?`, enum match, model and class methods with mutation, f-strings incl. literal braces, string methods, dicts, recursion, comprehensions and slices, tuples, numeric promotion through comparisons, while/break/continue/early return) judged by CPython only; distinct = distinct program",
+        rule="seeded random programs of the core fragment: a function f(a, b, flag, xs) with up to 3 levels of nested if / 0–3 elif / else, bounded while loops with break/continue, for over range and over lists, compound assignments with all five integer operators, prints of integer and boolean expressions built by a precedence-layered generator (so the source groups as written, without parentheses), calls of two printing helpers (evaluation order observable), list append / len / indexing with positive and negative indices; every program called with three argument tuples, compiled with rustc and run; 7 grouping probes; 3 hand-written regression programs first; plus 12 feature templates beyond the core fragment with seeded constants (Option/Result/`?`, enum match, model and class methods with mutation, f-strings incl. literal braces, string methods, dicts, recursion, comprehensions and slices, tuples, numeric promotion through comparisons, while/break/continue/early return) judged by CPython only; plus class chains of depth 1-3 declaring random subsets of four methods, every available method called on an instance of every class (model dispatch + the overriding rule); distinct = distinct program",
         extra_cov=getattr(ctx, "coverage_extra", None))
